@@ -24,8 +24,9 @@ VARIABLES lst,          \* listener: "none" | "listening" | "closed"
           inflight, sent, received,      \* per direction
           pend,         \* per party in {"c","s","l"}: the blocking call in progress or NoPend
           clock,
-          last          \* the most recently completed call and its result (observation of the API)
-vars == <<lst, backlog, st, inflight, sent, received, pend, clock, last>>
+          last,         \* the most recently completed call and its result (observation of the API)
+          nb            \* per endpoint: the stream is in non-blocking mode - an attribute given by its CONSTRUCTOR
+vars == <<lst, backlog, st, inflight, sent, received, pend, clock, last, nb>>
 
 Dirs == {"cs", "sc"}
 Out(e) == IF e = "c" THEN "cs" ELSE "sc"       \* the direction endpoint e writes
@@ -41,14 +42,15 @@ Init == /\ lst = "none" /\ backlog = 0
         /\ inflight = [d \in Dirs |-> <<>>] /\ sent = [d \in Dirs |-> <<>>] /\ received = [d \in Dirs |-> <<>>]
         /\ pend = [p \in {"c", "s", "l"} |-> NoPend]
         /\ clock = 0 /\ last = [op |-> "none", res |-> "none"]
+        /\ nb = [e \in {"c", "s"} |-> FALSE]
 
 Logged(x) == last' = x
 Tick == clock < MaxClock /\ clock' = clock + 1
-        /\ UNCHANGED <<lst, backlog, st, inflight, sent, received, pend, last>>
+        /\ UNCHANGED <<lst, backlog, st, inflight, sent, received, pend, last, nb>>
 
 \* ------------------------------------------------------------------ listener
 Listen == /\ lst = "none" /\ lst' = "listening"
-          /\ UNCHANGED <<backlog, st, inflight, sent, received, pend, clock, last>>
+          /\ UNCHANGED <<backlog, st, inflight, sent, received, pend, clock, last, nb>>
 
 \* the kernel establishes a connection as soon as somebody listens - before any accept
 Established == lst = "listening" /\ backlog = 0 /\ st["c"] = "unbound" /\ st["s"] = "unbound"
@@ -57,24 +59,27 @@ Established == lst = "listening" /\ backlog = 0 /\ st["c"] = "unbound" /\ st["s"
 ConnectStart(d) ==
     /\ st["c"] = "unbound" /\ pend["c"] = NoPend /\ backlog = 0
     /\ IF lst = "listening"
-       THEN /\ st' = [st EXCEPT !["c"] = "connected"] /\ backlog' = 1
+       THEN /\ st' = [st EXCEPT !["c"] = "connected"] /\ backlog' = 1 /\ nb' = [nb EXCEPT !["c"] = TRUE]
             /\ Logged([op |-> "connect", res |-> "ok"]) /\ UNCHANGED pend
-       ELSE /\ Logged([op |-> "connect", res |-> "refused"]) /\ UNCHANGED <<st, backlog, pend>>
+       ELSE /\ Logged([op |-> "connect", res |-> "refused"]) /\ UNCHANGED <<st, backlog, pend, nb>>
     /\ UNCHANGED <<lst, inflight, sent, received, clock>>
 TryConnect ==                                   \* same step, never a pending state
     /\ st["c"] = "unbound" /\ pend["c"] = NoPend /\ backlog = 0
     /\ IF lst = "listening"
        THEN st' = [st EXCEPT !["c"] = "connected"] /\ backlog' = 1 /\ Logged([op |-> "try_connect", res |-> "ok"])
-       ELSE Logged([op |-> "try_connect", res |-> "refused"]) /\ UNCHANGED <<st, backlog>>
+            /\ nb' = [nb EXCEPT !["c"] = TRUE]
+       ELSE Logged([op |-> "try_connect", res |-> "refused"]) /\ UNCHANGED <<st, backlog, nb>>
     /\ UNCHANGED <<lst, inflight, sent, received, pend, clock>>
 
 \* accept(): takes a connection from the backlog, waiting for one if there is none
-AcceptNow == /\ backlog' = 0 /\ st' = [st EXCEPT !["s"] = "connected"]
+\* every way of obtaining the accepted stream hands it out in the same (non-blocking) mode
+AcceptNow == /\ backlog' = 0 /\ st' = [st EXCEPT !["s"] = "connected"] /\ nb' = [nb EXCEPT !["s"] = TRUE]
 AcceptStart(d) ==
     /\ lst = "listening" /\ pend["l"] = NoPend /\ st["s"] = "unbound"
+    /\ d # Inf => clock + d <= MaxClock
     /\ IF backlog > 0
        THEN AcceptNow /\ Logged([op |-> "accept", res |-> "ok", d |-> d, start |-> clock, fin |-> clock]) /\ UNCHANGED pend
-       ELSE pend' = [pend EXCEPT !["l"] = [k |-> "accept", d |-> d, start |-> clock]] /\ UNCHANGED <<backlog, st, last>>
+       ELSE pend' = [pend EXCEPT !["l"] = [k |-> "accept", d |-> d, start |-> clock]] /\ UNCHANGED <<backlog, st, last, nb>>
     /\ UNCHANGED <<lst, inflight, sent, received, clock>>
 AcceptComplete ==
     /\ pend["l"].k = "accept" /\ backlog > 0
@@ -86,11 +91,11 @@ AcceptTimeout ==
     /\ clock >= pend["l"].start + pend["l"].d                 \* never earlier than the limit
     /\ pend' = [pend EXCEPT !["l"] = NoPend]
     /\ Logged([op |-> "accept", res |-> "timeout", d |-> pend["l"].d, start |-> pend["l"].start, fin |-> clock])
-    /\ UNCHANGED <<lst, backlog, st, inflight, sent, received, clock>>
+    /\ UNCHANGED <<lst, backlog, st, inflight, sent, received, clock, nb>>
 TryAccept ==
     /\ lst = "listening" /\ pend["l"] = NoPend /\ st["s"] = "unbound"
     /\ IF backlog > 0 THEN AcceptNow /\ Logged([op |-> "try_accept", res |-> "ok"])
-       ELSE Logged([op |-> "try_accept", res |-> "none"]) /\ UNCHANGED <<backlog, st>>
+       ELSE Logged([op |-> "try_accept", res |-> "none"]) /\ UNCHANGED <<backlog, st, nb>>
     /\ UNCHANGED <<lst, inflight, sent, received, pend, clock>>
 
 \* ------------------------------------------------------------------ data
@@ -108,27 +113,28 @@ WriteStart(e, n) ==
        THEN \E k \in 1..n : k <= Room(Out(e)) /\ Transfer(Out(e), k)
                             /\ Logged([op |-> "write", e |-> e, res |-> "ok", n |-> k]) /\ UNCHANGED pend
        ELSE pend' = [pend EXCEPT ![e] = [k |-> "write", n |-> n]] /\ UNCHANGED <<inflight, sent, last>>
-    /\ UNCHANGED <<lst, backlog, st, received, clock>>
+    /\ UNCHANGED <<lst, backlog, st, received, clock, nb>>
 WriteComplete(e) ==                             \* PollOut fired: room again (or the peer went away)
     /\ pend[e].k = "write"
     /\ \/ /\ Room(Out(e)) > 0 /\ st[Peer(e)] # "closed"
           /\ \E k \in 1..pend[e].n : k <= Room(Out(e)) /\ Transfer(Out(e), k) /\ Logged([op |-> "write", e |-> e, res |-> "ok", n |-> k])
        \/ /\ st[Peer(e)] = "closed" /\ Logged([op |-> "write", e |-> e, res |-> "epipe"]) /\ UNCHANGED <<inflight, sent>>
     /\ pend' = [pend EXCEPT ![e] = NoPend]
-    /\ UNCHANGED <<lst, backlog, st, received, clock>>
+    /\ UNCHANGED <<lst, backlog, st, received, clock, nb>>
 
 Deliver(d, k) == /\ received' = [received EXCEPT ![d] = @ \o SubSeq(inflight[d], 1, k)]
                  /\ inflight' = [inflight EXCEPT ![d] = SubSeq(@, k + 1, Len(@))]
 \* read(buf of n bytes, timeout d): k in 1..n bytes | 0 at end of stream | wait (PollIn) | Timeout
 ReadStart(e, n, d) ==
     /\ st[e] = "connected" /\ pend[e] = NoPend /\ n >= 1
+    /\ d # Inf => clock + d <= MaxClock            \* (bounded clock: the limit must be reachable)
     /\ IF inflight[In(e)] # <<>>
        THEN \E k \in 1..n : k <= Len(inflight[In(e)]) /\ Deliver(In(e), k)
                             /\ Logged([op |-> "read", e |-> e, res |-> "ok", n |-> k, d |-> d, start |-> clock, fin |-> clock]) /\ UNCHANGED pend
        ELSE IF st[Peer(e)] = "closed"
        THEN Logged([op |-> "read", e |-> e, res |-> "eof", n |-> 0, d |-> d, start |-> clock, fin |-> clock]) /\ UNCHANGED <<inflight, received, pend>>
        ELSE pend' = [pend EXCEPT ![e] = [k |-> "read", n |-> n, d |-> d, start |-> clock]] /\ UNCHANGED <<inflight, received, last>>
-    /\ UNCHANGED <<lst, backlog, st, sent, clock>>
+    /\ UNCHANGED <<lst, backlog, st, sent, clock, nb>>
 ReadComplete(e) ==
     /\ pend[e].k = "read"
     /\ \/ /\ inflight[In(e)] # <<>>
@@ -138,17 +144,19 @@ ReadComplete(e) ==
           /\ Logged([op |-> "read", e |-> e, res |-> "eof", n |-> 0, d |-> pend[e].d, start |-> pend[e].start, fin |-> clock])
           /\ UNCHANGED <<inflight, received>>
     /\ pend' = [pend EXCEPT ![e] = NoPend]
-    /\ UNCHANGED <<lst, backlog, st, sent, clock>>
+    /\ UNCHANGED <<lst, backlog, st, sent, clock, nb>>
+\* the wait for readiness (and with it the Timeout) exists only on a non-blocking stream: on a
+\* blocking one read(2) itself would wait, for ever if the peer stays silent
 ReadTimeout(e) ==
-    /\ pend[e].k = "read" /\ pend[e].d # Inf /\ inflight[In(e)] = <<>>
+    /\ pend[e].k = "read" /\ pend[e].d # Inf /\ inflight[In(e)] = <<>> /\ nb[e]
     /\ clock >= pend[e].start + pend[e].d
     /\ pend' = [pend EXCEPT ![e] = NoPend]
     /\ Logged([op |-> "read", e |-> e, res |-> "timeout", d |-> pend[e].d, start |-> pend[e].start, fin |-> clock])
-    /\ UNCHANGED <<lst, backlog, st, inflight, sent, received, clock>>
+    /\ UNCHANGED <<lst, backlog, st, inflight, sent, received, clock, nb>>
 
 Close(e) == /\ st[e] = "connected" /\ pend[e] = NoPend
             /\ st' = [st EXCEPT ![e] = "closed"]
-            /\ UNCHANGED <<lst, backlog, inflight, sent, received, pend, clock, last>>
+            /\ UNCHANGED <<lst, backlog, inflight, sent, received, pend, clock, last, nb>>
 
 Next == \/ Tick \/ Listen
         \/ \E d \in Timeouts \cup {Inf} : ConnectStart(d) \/ AcceptStart(d)
@@ -157,8 +165,8 @@ Next == \/ Tick \/ Listen
              \/ \E n \in 1..MaxBytes : WriteStart(e, n) \/ \E d \in Timeouts \cup {Inf} : ReadStart(e, n, d)
              \/ WriteComplete(e) \/ ReadComplete(e) \/ ReadTimeout(e) \/ Close(e)
 Spec == Init /\ [][Next]_vars
-Fair == /\ \A e \in {"c", "s"} : WF_vars(ReadComplete(e)) /\ WF_vars(WriteComplete(e))
-        /\ WF_vars(AcceptComplete)
+Fair == /\ \A e \in {"c", "s"} : WF_vars(ReadComplete(e)) /\ WF_vars(WriteComplete(e)) /\ WF_vars(ReadTimeout(e))
+        /\ WF_vars(AcceptComplete) /\ WF_vars(AcceptTimeout) /\ WF_vars(Tick)
 FairSpec == Spec /\ Fair
 
 \* ------------------------------------------------------------------ properties
@@ -182,6 +190,11 @@ TryNeverBlocks == \A p \in {"c", "s", "l"} : pend[p].k \in {"none", "accept", "r
 ReadCompletes == \A e \in {"c", "s"} :
                    (pend[e].k = "read" /\ inflight[In(e)] # <<>>) ~> (pend[e].k # "read")
 AcceptCompletes == (pend["l"].k = "accept" /\ backlog > 0) ~> (pend["l"].k # "accept")
+\* every stream handed out by any constructor is in the same mode as its siblings
+CtorUniform == \A e \in {"c", "s"} : st[e] = "connected" => nb[e] = nb[IF st["c"] = "connected" THEN "c" ELSE e]
+\* a time-limited call always RETURNS (with data, end of stream, or Timeout) - however silent the peer
+TimedCallsReturn == /\ \A e \in {"c", "s"} : (pend[e].k = "read" /\ pend[e].d # Inf) ~> (pend[e].k # "read")
+                    /\ (pend["l"].k = "accept" /\ pend["l"].d # Inf) ~> (pend["l"].k # "accept")
 WriteCompletes == \A e \in {"c", "s"} :
                     (pend[e].k = "write" /\ Room(Out(e)) > 0) ~> (pend[e].k # "write" \/ Room(Out(e)) = 0)
 =============================================================================
